@@ -549,6 +549,49 @@ def _kill_stray_cbmc():
             pass
 
 
+def kani_playback_batch(package, harnesses, log=None, timeout=2400):
+    """Re-run the failing harnesses of one package in ONE cargo-kani call (-j 16) with concrete playback;
+    returns {harness: [test, ...]} (tests are attributed by the generated test-function name)."""
+    res = {h: [] for h in harnesses}
+    if not harnesses:
+        return res
+    cmd = ["cargo", "kani", "-p", package, "--output-format", "terse", "-j", "16", "-Z", "unstable-options",
+           "-Z", "function-contracts", "-Z", "stubbing", "-Z", "concrete-playback", "--concrete-playback=print",
+           "--harness-timeout", "600s"]
+    for h in harnesses:
+        cmd += ["--harness", h]
+    try:
+        p = subprocess.run(cmd, capture_output=True, text=True, timeout=timeout, cwd=WS, env=KANI_ENV)
+        out = p.stdout + "\n" + p.stderr
+    except subprocess.TimeoutExpired as e:
+        out = (e.stdout or b"").decode("utf8", "replace") if isinstance(e.stdout, bytes) else (e.stdout or "")
+    if log:
+        with open(log, "w") as f:
+            f.write(out)
+    for t in _parse_playback(out):
+        # generated name: kani_concrete_playback_<harness>_<hash>; longest harness name wins
+        cands = [h for h in harnesses if ("kani_concrete_playback_" + h + "_") in t["fname"] + "_"]
+        if cands:
+            res[max(cands, key=len)].append(t)
+    return res
+
+
+def _parse_playback(out):
+    tests = []
+    for m in re.finditer(r"/// Check for `[^`]*`: (.*?)\n#\[test\]\nfn (\w+)\(\) \{\n\s*let concrete_vals: Vec<Vec<u8>> = vec!\[(.*?)\n\s*\];", out, re.S):
+        check, fname, body = m.group(1), m.group(2), m.group(3)
+        vals, comments = [], []
+        for line in body.split("\n"):
+            line = line.strip()
+            if line.startswith("//"):
+                comments.append(line[2:].strip())
+            mm = re.match(r"vec!\[([\d,\s]*)\]", line)
+            if mm:
+                vals.append([int(x) for x in mm.group(1).replace(" ", "").split(",") if x])
+        tests.append({"check": check.strip().strip('"'), "values": vals, "decoded": comments, "fname": fname})
+    return tests
+
+
 def kani_playback_values(package, harness, log=None, timeout=1800):
     """Re-run one failing harness with concrete playback and return a list of
     {check, values:[[bytes]...], comments:[str]}"""
